@@ -1395,3 +1395,119 @@ def r_plain_identity(cx):
               "Op::plain stores a latitude / longitude parameter after applying `%s` to it: the operator no longer works with "
               "the value the user wrote" % arith[0], cx.where(t["span"]))
     cx.count("R-PLAIN-IDENTITY", "inserts", n)
+
+
+@rule("R-ELLPS-FROM-PARAMS", ["C06", "C14"])
+def r_ellps_from_params(cx):
+    """An operator works on the ellipsoid its `ellps` parameter names: the operator modules obtain their ellipsoid from
+    `params.ellps(..)` and never fall back to `Ellipsoid::default()` or to a name written into the code - a constructor
+    that precomputes coefficients for the default ellipsoid yields GRS80 results for every `ellps=`."""
+    n = 0
+    bad = 0
+    for name in sorted(cx.f.lib["fns"]):
+        if "::tests::" in name or not name.startswith("inner_op::"):
+            continue
+        f = cx.f.fn(name)
+        for bb, t in f.calls():
+            c = f.callee(t) or ""
+            if c.endswith("ParsedParameters::ellps"):
+                n += 1
+            literal = c.endswith("Ellipsoid::named") and f.arg_terms(bb) and K._const_key(f.arg_terms(bb)[0]) is not None
+            if ("Ellipsoid as std::default::Default>::default" in c) or c.endswith("Ellipsoid::default") or literal:
+                bad += 1
+                cx.ob("R-ELLPS-FROM-PARAMS", "%s/fixed%d" % (name, bad - 1), False,
+                      "%s builds its ellipsoid from %s, not from the operator's `ellps` parameter: whatever `ellps=` says, the "
+                      "operator computes on that fixed ellipsoid" % (name, "Ellipsoid::default()" if not literal else
+                                                                    "the literal name `%s`" % K._const_key(f.arg_terms(bb)[0])),
+                      cx.where(t["span"]))
+    cx.ob("R-ELLPS-FROM-PARAMS", "summary", True, "%d reads of the ellps parameter in the operator modules examined" % n,
+          nontrivial=False)
+    cx.count("R-ELLPS-FROM-PARAMS", "ellps_reads", n)
+
+
+@rule("R-MERC-K0-GUARDED", ["C05", "C13"])
+def r_merc_k0_guarded(cx):
+    """merc takes its scale from `k_0`, unless a latitude of true scale is given, which then determines it. The constructor
+    replaces the stored k_0 only under a test of lat_ts: an unconditional `insert("k_0", f(lat_ts))` (harmless-looking,
+    since f(0) = 1) throws an explicitly given k_0 away."""
+    import guards
+    from rules.inverse import _keys_deep
+    name = "inner_op::merc::new"
+    if not cx.f.has_fn(name):
+        cx.ob("R-MERC-K0-GUARDED", "anchor", False, "anchor-missing: %s" % name)
+        return
+    f = cx.f.fn(name)
+    n = 0
+    for bb, t in f.calls():
+        if not ((f.callee(t) or "").endswith("BTreeMap::<K, V, A>::insert") and len(f.arg_terms(bb)) > 2 and
+                K._const_key(f.arg_terms(bb)[1]) == "k_0"):
+            continue
+        n += 1
+        guarded = False
+        oks = K.ok_blocks(f)
+        for g in sorted(f.reachable()):
+            sw = f.term(g)
+            if sw["k"] != "switch" or g == bb or not f.dominates(g, bb):
+                continue
+            c = mir.strip_refs(f.operand(sw["discr"], f.end_point(g)))
+            if not ((c[0] == "bin" or (c[0] == "call" and isinstance(c[1], str) and c[1].rsplit("::", 1)[-1].startswith("is_"))
+                     or c[0] == "un") and "lat_ts" in _keys_deep(f, c)):
+                continue
+            # the side that does not lead to the write still builds the operator (a test that merely refuses bad values
+            # does not count)
+            for sx in f.succ[g]:
+                if f.dominates(sx, bb):
+                    continue
+                if oks & f.reach_from([sx], avoid=[bb]):
+                    guarded = True
+        cx.ob("R-MERC-K0-GUARDED", "new/k_0-write%d" % (n - 1), guarded,
+              "merc replaces k_0 only under a test of lat_ts" if guarded else
+              "merc::new overwrites k_0 whether or not lat_ts was given: `merc k_0=0.9996` has scale 1 on the equator",
+              cx.where(t["span"]))
+    if n == 0:
+        cx.ob("R-MERC-K0-GUARDED", "none", True, "merc::new does not replace k_0", nontrivial=False)
+    cx.count("R-MERC-K0-GUARDED", "functions", 1)
+
+
+@rule("R-OMERC-LABORDE", ["C05", "C13"])
+def r_omerc_laborde(cx):
+    """omerc without `gamma_c` is the Laborde case, which the operator approximates by Hotine variant B with gamma_c = alpha
+    (documented in the source and in Rumination 002): a missing gamma_c forces the variant B branch. In omerc's forward
+    and inverse function, every per-tuple decision that looks at the `variant` flag also looks at whether gamma_c is NaN."""
+    import guards
+    n = 0
+    for role, fn in (("fwd", "inner_op::omerc::fwd"), ("inv", "inner_op::omerc::inv")):
+        if not cx.f.has_fn(fn):
+            cx.ob("R-OMERC-LABORDE", role, False, "anchor-missing: %s" % fn)
+            continue
+        f = cx.f.fn(fn)
+        k = 0
+        for bb in sorted(f.reachable()):
+            sw = f.term(bb)
+            if sw["k"] != "switch" or f.innermost_loop(bb) is None:
+                continue
+            d = f.operand(sw["discr"], f.end_point(bb))
+            ats = guards.atoms(f, d)
+            flag = nanc = False
+            for a in ats:
+                a = mir.strip_refs(a)
+
+                def vis(y):
+                    nonlocal flag, nanc
+                    if y[0] == "call" and isinstance(y[1], str) and y[1].endswith("ParsedParameters::boolean") and len(y[2]) > 1 and \
+                            K._const_key(y[2][1]) == "variant":
+                        flag = True
+                    if y[0] == "call" and isinstance(y[1], str) and y[1].endswith("::is_nan"):
+                        nanc = True
+                    return True
+                mir.walk(a, vis)
+            if not flag:
+                continue
+            n += 1
+            cx.ob("R-OMERC-LABORDE", "%s/variant-test%d" % (role, k), nanc,
+                  "omerc %s: the variant decision also covers the Laborde case (gamma_c missing)" % role if nanc else
+                  "omerc %s decides between variant A and B on the `variant` flag alone: a definition without gamma_c (the "
+                  "Laborde case, documented as variant B with gamma_c = alpha) is evaluated as variant A, and the projection centre "
+                  "maps u_c away from the false origin" % role, cx.where(sw["span"]))
+            k += 1
+    cx.count("R-OMERC-LABORDE", "variant_tests", n)
